@@ -524,6 +524,54 @@ def trace (s : State) : List Event → List Spec.Obs
     | some s' => obsOf s e ++ trace s' es
     | none => []
 
+/-! ### collecting the result of a blocking job
+
+The job body runs under `catch_unwind_io` on the pool thread (`push_blocking`): a panic is stored in the
+key as `io::Error::other(Panic(payload))`.  Every public way to collect — `Proactor::pop`,
+`Proactor::pop_with_extra`, `Proactor::cancel` of a completed key, the runtime's `submit(..).await`,
+`submit(..).with_extra().await` and the `spawn_blocking` JoinHandle (which are built on the first two) —
+is `key.take_result()` followed by `resume_unwind_io`: one function, `collect`, for all paths. -/
+
+/-- what the job body did -/
+inductive JobResult where
+  | ok (v : Nat)
+  | err (code : Nat)
+  | panicked (payload : Nat)
+  deriving DecidableEq, Repr
+
+/-- the `io::Result<usize>` stored in the key -/
+inductive Carried where
+  | ok (v : Nat)
+  | err (code : Nat)
+  | panic (payload : Nat)
+  deriving DecidableEq, Repr
+
+/-- `catch_unwind_io` -/
+def catchUnwindIo : JobResult → Carried
+  | .ok v => .ok v
+  | .err c => .err c
+  | .panicked p => .panic p
+
+/-- what the collecting call shows to its caller -/
+inductive Seen where
+  | value (v : Nat)
+  | error (code : Nat)
+  | unwind (payload : Nat)
+  deriving DecidableEq, Repr
+
+/-- `resume_unwind_io` -/
+def resumeUnwindIo : Carried → Seen
+  | .ok v => .value v
+  | .err c => .error c
+  | .panic p => .unwind p
+
+inductive CollectPath where
+  | pop | popWithExtra | cancel | submit | submitWithExtra | spawnBlocking
+  deriving DecidableEq, Repr
+
+/-- `take_result` then `resume_unwind_io`, on every path -/
+def collect (_path : CollectPath) (c : Carried) : Seen := resumeUnwindIo c
+
 /-! ### a deterministic scheduler for the quiescent runs of the driver
 
 `internal s` = the first worker that can make a step on its own (no timer, no job body involved);
